@@ -42,7 +42,7 @@ def main():
         })
     manifest = {
         "version": 1,
-        "setup_cmd": "cd /verif && /venv/bin/python tools/gen_lean.py > /dev/null && cd lean && lake build SCoda driver",
+        "setup_cmd": "cd /verif && /venv/bin/python tools/gen_lean.py > /dev/null && cd lean && lake build SCoda driver heapdriver",
         "hooks": {"guard": "SCODA_VERIF", "enable": "no source hooks are needed: the harness reads stale flags, message lists and object identities directly; SCODA_VERIF=1 is set by ./check and is unused by /repo",
                   "baseline_off_cmd": "cd /repo && /venv/bin/python -m pytest -ra -q -p no:cacheprovider --timeout=900 --continue-on-collection-errors",
                   "source_commits": [], "add_only": True},
